@@ -78,6 +78,20 @@ def _star_keys(fi, call):
     return keys
 
 
+# names that are run settings (scalars / switches chosen by the user), as
+# opposed to data that is legitimately transformed on the way down
+SETTINGS = {
+    'bootstrap_iteration', 'bootstrap_factor', 'bootstrap_factor_lookup',
+    'n_assignments', 'normalization', 'rng', 'n_per_utility',
+    'genes_at_a_time', 'p_th', 'q1_th', 'qdiff_th', 'log2_fold_th',
+    'q1_min_th', 'qdiff_min_th', 'log2_fold_min_th', 'n_valid',
+    'exact_penetrance', 'drop_level', 'flatten', 'layer', 'round_to_int',
+    'n_processors', 'chunk_size', 'rows_at_a_time', 'max_gb', 'cloud_safe',
+    'behemoth_cutoff', 'n_per_utility_override', 'min_markers', 'boring_t',
+    'big_nu', 'expected_max', 'tmp_dir',
+}
+
+
 def check_forwarding(ctx, names, rule='R-FWD/parameter-forwarded',
                      in_scope=None):
     db = ctx.db
@@ -120,6 +134,9 @@ def check_forwarding(ctx, names, rule='R-FWD/parameter-forwarded',
                        f'it: {t.name} falls back to its default '
                        f'`{p}={unparse(dflt[p])[:30]}`, whatever the '
                        'caller was asked to use')
+    # ... and a setting is not replaced on the way (see below)
+    n += check_settings_not_rebound(ctx, set(names) & SETTINGS,
+                                    in_scope=in_scope)
     # workers started with Process(target=f, kwargs={...}): the same
     # obligation for the literal kwargs
     from . import workers as W
@@ -142,4 +159,68 @@ def check_forwarding(ctx, names, rule='R-FWD/parameter-forwarded',
                    f'{fi.name} holds `{p}` but starts the worker '
                    f'{site.target.name} without it: the worker falls back '
                    f'to its default `{p}={unparse(dflt[p])[:30]}`')
+    return n
+
+
+def check_settings_not_rebound(ctx, names, rule='R-FWD/setting-not-rebound',
+                               in_scope=None):
+    """a run setting that a function receives (bootstrap_iteration,
+    bootstrap_factor, normalization, n_per_utility, ...) is what the run
+    was asked to use.  Inside the pipeline it may be normalised (`p =
+    int(p)`, `p = pathlib.Path(p)`) or defaulted (`if p is None: p = ...`),
+    but not replaced by another value on some condition: the run then
+    silently uses a setting nobody asked for."""
+    from ..core.guards import none_facts
+    db = ctx.db
+    n = 0
+    for fi in db.iter_functions(in_scope):
+        if fi.module.short.startswith(('gpu_utils', 'corr.')):
+            continue
+        fparams = (set(fi.params) - {'self', 'cls'}) & set(names)
+        if not fparams:
+            continue
+        cfg = rd = None
+        for st in ast.walk(fi.node):
+            tgt = None
+            if isinstance(st, ast.Assign) and len(st.targets) == 1 \
+                    and isinstance(st.targets[0], ast.Name):
+                tgt, val = st.targets[0].id, st.value
+            elif isinstance(st, ast.AugAssign) and isinstance(
+                    st.target, ast.Name):
+                tgt, val = st.target.id, None
+            if tgt not in fparams:
+                continue
+            n += 1
+            ok = False
+            if val is not None and any(
+                    isinstance(x, ast.Name) and x.id == tgt
+                    for x in ast.walk(val)):
+                ok = True           # derived from itself
+            if not ok and val is not None:
+                # ... possibly through a local
+                from ..core.slicing import backward_slice
+                if cfg is None:
+                    cfg = cfg_of(fi)
+                    rd = rd_of(fi)
+                ns0 = [x for x in cfg.nodes_of(st) if x.id in rd.live]
+                if ns0:
+                    sl = backward_slice(fi, val, ns0[0].id)
+                    ok = tgt in sl.params or tgt in sl.names
+            if not ok and val is not None:
+                if cfg is None:
+                    cfg = cfg_of(fi)
+                    rd = rd_of(fi)
+                ns = [x for x in cfg.nodes_of(st) if x.id in rd.live]
+                if ns:
+                    is_none, _nn = none_facts(cfg, rd, ns[0].id)
+                    ok = any(isinstance(e, ast.Name) and e.id == tgt
+                             for e in is_none)
+                else:
+                    ok = True       # dead code
+            ctx.touch(fi)
+            ctx.ob(rule, f'{fi.qual}:{tgt}#{n - 1}', fi.loc(st), ok,
+                   f'`{tgt}` is only normalised or defaulted' if ok else
+                   f'`{unparse(st)[:60]}` replaces the setting `{tgt}` the '
+                   f'function was given: from here on the run uses '
+                   'another value than the one it was asked to use')
     return n
